@@ -8,11 +8,11 @@ quiescence; then the cache is cleared and must follow the sequential LRU model (
 """
 
 from ..actors import InjectedFault
-from ..loop import PAUSE, Cancel
+from ..loop import PAUSE, CANCEL
 from ..runner import Outcome
 from ..tools import lib
 from .c10 import Model
-from .common import set_interrupts, COMPONENTS_BASE, run_sim, new_sim, finish_outcome
+from .common import set_interrupts, COMPONENTS_BASE, COMPONENTS_AIO, run_sim, new_sim, finish_outcome, pick_backend
 
 PID = "C11"
 LEVEL = "exploration"
@@ -27,7 +27,7 @@ RULE = (
     "after cache_clear a sequential continuation matches the LRU model. Non-trivial: >=2 invocations "
     "overlapped in time; distinct = distinct (scenario, interleaving) by 64-bit hash."
 )
-COMPONENTS = dict(COMPONENTS_BASE, models=["OrderedDict LRU model of C10 for the sequential continuation"])
+COMPONENTS = dict(COMPONENTS_AIO, models=["OrderedDict LRU model of C10 for the sequential continuation"])
 ASSUMPTIONS = [
     "the wrapped coroutine function itself supports overlapping calls (stated precondition of lru_cache)",
     "counters are compared at quiescence only; while calls are in flight only currsize<=maxsize and value provenance are judged",
@@ -54,6 +54,7 @@ def gen(ch):
     sc.fail_serial = ch.draw(8) if ch.chance(1, 4) else None  # the n-th invocation fails
     sc.cancel = ch.draw(sc.ntasks) if ch.chance(1, 3) else None
     sc.post = [ch.draw(sc.nkeys) for _ in range(ch.between(2, 6))]
+    sc.backend = pick_backend(ch, 1, 5)
     return sc
 
 
@@ -61,7 +62,7 @@ def execute(st, ctx):
     out = Outcome()
     ch = st.scenario
     sc = gen(ch)
-    sim = new_sim(st, interrupts=False)
+    sim = new_sim(st, interrupts=False, backend=sc.backend)
     set_interrupts(sim, (0, 0, 5, 2)[sc.interrupt])
     L = lib()
     invs = []  # [serial, key, start_seq, end_seq|None, status]
@@ -91,7 +92,7 @@ def execute(st, ctx):
             rec[3] = sim.seq
             rec[4] = "ok"
             return ("v", key, serial)
-        except Cancel:
+        except CANCEL:
             rec[4] = "cancelled"
             raise
         finally:
@@ -112,7 +113,7 @@ def execute(st, ctx):
                     rec[4] = "ok"
                 except InjectedFault:
                     rec[4] = "failed"
-                except Cancel:
+                except CANCEL:
                     rec[4] = "cancelled"
                     rec[3] = sim.seq
                     raise
@@ -149,7 +150,7 @@ def execute(st, ctx):
     sig = ("maxsize=%r" % (sc.maxsize,),)
 
     def describe():
-        return {"maxsize": sc.maxsize, "keys": sc.nkeys, "suspensions": sc.susp, "fail_invocation": sc.fail_serial,
+        return {"backend": sc.backend, "maxsize": sc.maxsize, "keys": sc.nkeys, "suspensions": sc.susp, "fail_invocation": sc.fail_serial,
                 "programs": [[(("call", "clear", "discard", "info")[k], key, p) for k, key, p in ops] for ops in sc.progs],
                 "cancel": {"task": sc.cancel, "fired_at": sim.cancel_fired_at} if sc.cancel is not None else None,
                 "invocations": [list(r) for r in invs], "calls": [list(c) for c in calls],
@@ -240,7 +241,7 @@ def execute(st, ctx):
         out.faults["discard_in_flight"] = 1
     overlapped = any(a[2] < b[2] <= (a[3] if a[3] is not None else 10**9) for a in invs for b in invs if a is not b)
     out.nontrivial = overlapped
-    out.shape = (sc.maxsize, sc.nkeys, tuple(tuple(o) for ops in sc.progs for o in ops), sc.fail_serial,
+    out.shape = (sc.backend, sc.maxsize, sc.nkeys, tuple(tuple(o) for ops in sc.progs for o in ops), sc.fail_serial,
                  sc.cancel, hash(tuple(sim.trace)))
     if ctx.want_sample:
         out.sample = describe()
